@@ -579,13 +579,18 @@ func heavySamples(seed int64, tier string) []Sample {
 				if len(cts) > 1 {
 					h.structures(name, sk, cts[1], nonces[1])
 				}
-				h.proofNthRoot(name, sk)
+				if h.thorough {
+					h.proofNthRoot(name, sk)
+				}
 			}
 		}
 	})
 
 	// -- CGGMP21 shards (stored trusted-dealer material: Paillier-Blum keys and ring-Pedersen parameters)
 	h.group("heavy-cggmp21", func() {
+		if !h.thorough {
+			return // decoding the stored file and one shard costs > 3 s: thorough tier only
+		}
 		m, err := keys.LoadCggmp[hvP, hvB, hvS]("k256", hvPolicy)
 		if err != nil {
 			sampleError("cggmp21shard-k256", err)
